@@ -196,6 +196,8 @@ BraceInTypedefComment(buf) ==
 PRInit == [mode |-> "top", buf |-> <<>>, pairs |-> <<>>, enums |-> <<>>, structs |-> <<>>, rows |-> <<>>, notes |-> {}]
 StructIndex(structs, name) == SelectInSeq(structs, LAMBDA s : s.name = name)
 
+Missing == <<"<missing>">>      \* a row with fewer cells than columns (malformed; SpecParse stays total)
+
 PRLine(a, line) ==
   LET s == Strip(line) IN
   IF a.mode = "td" \/ (a.mode = "top" /\ IsTypedefStart(line)) THEN
@@ -214,7 +216,7 @@ PRLine(a, line) ==
          ti == StructIndex(a.structs, UpStr(key))
      IN IF toks[1].k = "bare" /\ ti > 0 THEN
            LET cols == a.structs[ti].cols
-               cells == [k \in 1..Len(cols) |-> CellOf(cols[k], toks[k + 1])]
+               cells == [k \in 1..Len(cols) |-> IF k + 1 <= Len(toks) THEN CellOf(cols[k], toks[k + 1]) ELSE Missing]
            IN [a EXCEPT !.rows = Append(a.rows, [t |-> ti, cells |-> cells])]
         ELSE
            LET rest == SubSeq(s, Len(key) + 1, Len(s))
@@ -258,7 +260,7 @@ Canon(doc) ==
 
 (* which strings are inside the guarantee (C01's exclusion list) *)
 NoDQ(s) == \A k \in 1..Len(s) : s[k] # DQ
-ScalarStringOK(s) == NoDQ(s) /\ (s = <<>> \/ Head(s) # "{") /\ \A k \in 1..Len(s) : s[k] \notin {NL, CR}
+ScalarStringOK(s) == NoDQ(s) /\ (IF s = <<>> THEN TRUE ELSE Head(s) # "{") /\ \A k \in 1..Len(s) : s[k] \notin {NL, CR}
 ElementStringOK(s) == ScalarStringOK(s) /\ \A k \in 1..Len(s) : s[k] # "}"
 HeaderValueOK(v) == v # <<>> /\ NoDQ(v) /\ \A k \in 1..Len(v) : v[k] \notin {"#", NL, CR}
                     /\ Head(v) \notin WS /\ Last(v) \notin WS /\ Last(v) # BS
